@@ -402,6 +402,12 @@ class Tr:
             return text
         if ty == "NONE" and want in OPT:
             return "None"
+        if isinstance(want, str) and want.startswith("O:") and ty == "NONE":
+            return "None"                            # (tsmall) None stored / returned as a declared O:T
+        if isinstance(want, str) and want == "O:" + str(ty):
+            return f"(Some {text})"                  # (tsmall) a T stored / returned as a declared O:T
+        if ty == "Z" and want == "N" and re.fullmatch(r"[0-9]+", text):
+            return f"{text}%N"                       # (tsmall) a non-negative int literal stored in a counter
         if ty in SOME and want == SOME[ty]:
             return f"(Some {text})"
         if ty == "OZ" and want == "Z":
@@ -569,6 +575,12 @@ class Tr:
                 return {"true": "false", "false": "true"}.get(t, f"(negb {t})"), "B"
             if isinstance(e.op, ast.USub):
                 return f"(- {self.expr(e.operand, env, 'Z')[0]})", "Z"
+            if isinstance(e.op, ast.Invert) and self.spec.get("unops"):
+                # (tsmall) `~x` on an abstract type: the function the spec declares for it
+                t, ty = self.expr0(e.operand, env)
+                if (ty, "~") in self.spec["unops"]:
+                    fn_, rty = self.spec["unops"][(ty, "~")]
+                    return f"({fn_} {t})", rty
             raise Unsupported("unary operator")
         if isinstance(e, ast.BinOp) and isinstance(e.op, ast.BitAnd):
             # d1.keys() & d2.keys()
@@ -616,6 +628,10 @@ class Tr:
             a, _ = self.expr(e.left, env, "Z")
             b, _ = self.expr(e.right, env, "Z")
             return f"({a} {sym[type(e.op)]} {b})", "Z"
+        if isinstance(e, ast.Call) and ast.unparse(e) in self.spec.get("empty_calls", ()) and \
+                want is not None and self.is_list(want):
+            # (tsmall) a constructor call the spec declares to build an empty store (typed by its target)
+            return f"(@nil {self.coq_type(self.item_of(want))})", want
         if isinstance(e, ast.Call):
             return self.call(e, env)
         if isinstance(e, ast.List) and e.elts:
@@ -940,6 +956,13 @@ class Tr:
             if fn == "list":
                 return x, ty
             return f"(Z.of_nat (length {x}))", "Z"
+        if fn == "tuple" and "tuple" not in env and len(e.args) == 1 and not e.keywords and \
+                not isinstance(e.args[0], (ast.GeneratorExp, ast.ListComp)):
+            # (tsmall) tuple(xs) of a list: the same items in the same order
+            x, ty = self.expr0(e.args[0], env)
+            if not self.is_list(ty) or ty == "FS" or self.item_of(ty) in self.records:
+                raise Unsupported(f"tuple of {ty}")
+            return x, ty
         if fn == "range" and len(e.args) == 1 and not e.keywords:
             n, _ = self.expr(e.args[0], env, "Z")
             return f"(zrange {n})", "L:Z"
@@ -1147,6 +1170,8 @@ class Tr:
             return ("@" + ef["var"]) if ef.get("var") else None, c, ef
         if isinstance(c.func, ast.Attribute) and c.func.attr == "append" and isinstance(c.func.value, ast.Name):
             return c.func.value.id, c, "append"
+        if isinstance(c.func, ast.Attribute) and c.func.attr == "extend" and isinstance(c.func.value, ast.Name):
+            return c.func.value.id, c, "extend"      # (tsmall)
         return None
 
     def self_is_record(self):
@@ -1540,6 +1565,17 @@ class Tr:
                     raise Unsupported("append of a mutable record to a list")
                 x, _ = self.expr(c.args[0], env, self.item_of(env[key]))
                 return self.assign(key, f"({cname(key)} ++ [{x}])", env[key], env, pad, rest, fin, ind)
+            if how == "extend":
+                # (tsmall) xs.extend(ys): the items of ys appended in order (ys a list that is not xs itself)
+                if key not in env or not self.is_list(env[key]) or env[key] == "FS" or len(c.args) != 1 or c.keywords \
+                        or key in self.pyargs:
+                    raise Unsupported(f"statement {ast.unparse(s)[:80]}")
+                if self.item_of(env[key]) in self.records:
+                    raise Unsupported("extend of a list of mutable records")
+                if any(isinstance(n_, ast.Name) and n_.id == key for n_ in ast.walk(c.args[0])):
+                    raise Unsupported("extend of a list by itself")
+                x, _ = self.expr(c.args[0], env, env[key])
+                return self.assign(key, f"({cname(key)} ++ {x})", env[key], env, pad, rest, fin, ind)
             kwmap = how.get("kwmap", {})          # keyword -> {source text of the value: coq text}
             kws = {k.arg: ast.unparse(k.value) for k in c.keywords}
             if set(kws) != set(kwmap) or len(kws) != len(c.keywords) or len(c.args) != len(how.get("args", [])) or \
@@ -1789,6 +1825,10 @@ class Tr:
     def try_stmt(self, s, rest, env, fin, ind):
         """try: return f(..)  except E: H   with f declared to raise E (its Coq form returns an option)"""
         pad = "  " * ind
+        if self.spec.get("try_collect"):
+            r_ = self.try_collect(s, rest, env, fin, ind)          # (tsmall)
+            if r_ is not None:
+                return r_
         nf = self.next_form(s)
         if nf is not None:
             x, it = nf
@@ -1845,6 +1885,57 @@ class Tr:
         ok = fin(env, "return", "v_")
         hb = self.block(list(h.body) + rest, env, fin_h, ind + 1)
         return f"{pad}match {t} with\n{pad}| Some v_ =>\n{pad}  {ok}\n{pad}| None =>\n{hb}\n{pad}end"
+
+    def try_collect(self, s, rest, env, fin, ind):
+        """(tsmall)  try: return tuple(GET(obj, f) for f in XS)
+                     except E as e: raise T(..) from e
+        with GET declared by spec "try_collect" (getter, coq, recv, item, exc, ret): its Coq form returns an option
+        (None = it raises E).  The generator is consumed left to right by tuple(); the first failing call raises:
+            match opt_all (map (fun f => GET obj f) XS) with Some v_ => return v_ | None => raise T end"""
+        tc = self.spec["try_collect"]
+        pad = "  " * ind
+        if s.orelse or s.finalbody or len(s.handlers) != 1 or len(s.body) != 1:
+            return None
+        h, b = s.handlers[0], s.body[0]
+        if not (isinstance(h.type, ast.Name) and h.type.id == tc["exc"] and h.name and len(h.body) == 1):
+            return None
+        r = h.body[0]
+        if not (isinstance(r, ast.Raise) and isinstance(r.exc, ast.Call) and isinstance(r.exc.func, ast.Name)
+                and r.exc.func.id in EXCEPTIONS and isinstance(r.cause, ast.Name) and r.cause.id == h.name):
+            raise Unsupported("try_collect: handler shape")
+        c = b.value if isinstance(b, ast.Return) else None
+        if not (isinstance(c, ast.Call) and isinstance(c.func, ast.Name) and c.func.id == "tuple" and len(c.args) == 1
+                and not c.keywords and isinstance(c.args[0], ast.GeneratorExp)):
+            raise Unsupported("try_collect: body shape")
+        g = c.args[0]
+        if len(g.generators) != 1 or g.generators[0].ifs or g.generators[0].is_async or \
+                not isinstance(g.generators[0].target, ast.Name):
+            raise Unsupported("try_collect: generator shape")
+        gen, elt = g.generators[0], g.elt
+        f = gen.target.id
+        if not (isinstance(elt, ast.Call) and isinstance(elt.func, ast.Name) and elt.func.id == tc["getter"]
+                and len(elt.args) == 2 and not elt.keywords and isinstance(elt.args[1], ast.Name)
+                and elt.args[1].id == f):
+            raise Unsupported("try_collect: element shape")
+        if self.kind != "expr" or not self.res or self.plain or rest or self.loop_depth or \
+                any(n in env for n in ("tuple", tc["getter"])) or "opt_all" in self.all_names:
+            raise Unsupported("try_collect: context")
+        if any(isinstance(n, ast.Name) and n.id == f for n in ast.walk(elt.args[0])):
+            raise Unsupported("try_collect: the receiver depends on the item")
+        obj, _ = self.expr(elt.args[0], env, tc["recv"])
+        xs, xty = self.expr0(gen.iter, env)
+        if xty.startswith("O:") and is_path(gen.iter) and self.known_some(gen.iter, env):
+            xs, xty = f"(match {xs} with Some v_ => v_ | None => [] end)", xty[2:]
+        coqt = self.coq_type(xty)
+        if not (coqt.strip("()").startswith("list ") or self.is_list(xty)) or \
+                coqt.strip("()") != "list " + self.coq_type(tc["item"]):
+            raise Unsupported(f"try_collect: iteration over {xty}")
+        inner = self.bind(env, f, tc["item"])            # (the name check)
+        val = self.coerce("v_", tc["ret"], self.ret_type, "(tuple(..))")
+        ok = fin(env, "return", val)
+        bad = fin(env, "raise", r.exc.func.id)
+        return (f"{pad}match opt_all (map (fun {cname(f)} => {tc['coq']} {obj} {cname(f)}) {xs}) with\n"
+                f"{pad}| Some v_ => {ok}\n{pad}| None => {bad}\n{pad}end")
 
     def next_form_ext(self, s, env):
         """try: T = next(IT); <statements without any call or raise>  except StopIteration: H
@@ -2131,9 +2222,10 @@ class Tr:
         self.last_raises = None
         kind = self.kind
         a = fdef.args
-        if a.vararg or a.kwarg:
+        if (a.vararg and a.vararg.arg != spec.get("vararg")) or (a.kwarg and a.kwarg.arg != spec.get("kwarg")):
             raise Unsupported("*args / **kwargs parameters")
         pyargs = [x.arg for x in a.posonlyargs + a.args + a.kwonlyargs]
+        pyargs += [x.arg for x in (a.vararg, a.kwarg) if x is not None]      # (tsmall) declared by the spec
         self.pyargs = set(pyargs)
         self.sum_names = set()
         self.all_names = {x.id for x in ast.walk(fdef) if isinstance(x, ast.Name)} | set(pyargs)
@@ -2210,6 +2302,8 @@ class Tr:
             if self.uses_fuel and not has_while:
                 params.insert(len(spec.get("tyvars", [])), "(fuel : nat)")
 
+        if kind in ("check", "ctor"):
+            return self.function_small(fdef, body, env, params, raise_text, wrap)
         if kind == "method":
             # a method of a record class that updates self: the result is (self afterwards, returned value)
             if self.res or "self" not in env or env["self"] not in self.records:
@@ -2373,6 +2467,137 @@ class Tr:
                                                              "__slots__", "__del__"):
                 raise Unsupported(f"class {cd.name} defines {n.name}")
 
+    # ---------------------------------------------------------------- (tsmall) kinds "check" and "ctor"
+    def function_small(self, fdef, body, env, params, raise_text, wrap):
+        """kind "check": a function that returns None and whose only effect is that it may raise
+                         (result: res unit; spec res=True).
+           kind "ctor":  an __init__ that only stores fields (result: the record of the stored fields, spec
+                         "record").  Accepted statements: `self.f = e` / `self.f: T = e` for a declared field f,
+                         `if`, `raise`, docstrings; nothing may READ self (a read of a field that is not stored
+                         yet would be an AttributeError); every field must be stored on every path that ends
+                         normally; the stores the spec lists in "ignore_stores" (exact text of the right-hand
+                         side, top level only, e.g. a lock) are not part of the record."""
+        spec, name = self.spec, self.spec["name"]
+        if self.kind == "check":
+            if not self.res:
+                raise Unsupported("a check needs a res result")
+
+            def fin(e2, k, v=None):
+                if k == "end" or (k == "return" and v is None):
+                    return "(RDone tt)"
+                if k == "raise":
+                    return raise_text(e2, v)
+                raise Unsupported(f"{k} outside a loop")
+            text = self.block(body, env, fin, 1)
+            return f"Definition {name} {' '.join(params)} : res unit :=\n{text}.\n"
+        rt = spec["record"]
+        rd = self.records[rt]
+        self.check_ctor_class(rd)
+        if fdef.name != "__init__" or "self" in env:
+            raise Unsupported("a ctor is an __init__ whose self is not a parameter of the generated definition")
+        ignore = spec.get("ignore_stores", {})
+        fields = {py: ty for py, _proj, ty in rd["fields"]}
+        ok_self = set()
+
+        def prepare(stmts, top):
+            out = []
+            for x in stmts:
+                if isinstance(x, ast.Expr) and isinstance(x.value, ast.Constant) and isinstance(x.value.value, str):
+                    continue
+                if isinstance(x, (ast.Pass, ast.Raise)):
+                    out.append(x)
+                    continue
+                if isinstance(x, ast.If):
+                    out.append(ast.If(test=x.test, body=prepare(x.body, False) or [ast.Pass()],
+                                      orelse=prepare(x.orelse, False)))
+                    continue
+                tg = x.targets[0] if isinstance(x, ast.Assign) and len(x.targets) == 1 else \
+                    (x.target if isinstance(x, ast.AnnAssign) else None)
+                if not (isinstance(tg, ast.Attribute) and isinstance(tg.value, ast.Name) and tg.value.id == "self"
+                        and getattr(x, "value", None) is not None):
+                    raise Unsupported(f"statement in __init__: {ast.unparse(x)[:60]}")
+                ok_self.add(id(tg.value))
+                if top and tg.attr in ignore:
+                    if ast.unparse(x.value) != ignore[tg.attr] or tg.attr in fields:
+                        raise Unsupported(f"self.{tg.attr} is not stored as {ignore[tg.attr]}")
+                    continue
+                if tg.attr not in fields:
+                    raise Unsupported(f"self.{tg.attr} is not a declared field of {rt}")
+                if isinstance(x, ast.AnnAssign):
+                    at = ast.unparse(x.annotation)
+                    decl = self.annotations.get(at) or ann_type(x.annotation)
+                    if decl != fields[tg.attr] and not (isinstance(decl, (list, tuple)) and fields[tg.attr] in decl):
+                        raise Unsupported(f"self.{tg.attr} is annotated {at}, declared {fields[tg.attr]}")
+                    # (an annotation has no run-time effect)
+                    x = ast.copy_location(ast.Assign(targets=[x.target], value=x.value), x)
+                out.append(x)
+            return out
+        stmts = prepare(body, True)
+        for sub in ast.walk(ast.Module(body=body, type_ignores=[])):
+            if isinstance(sub, ast.Name) and sub.id == "self" and id(sub) not in ok_self:
+                raise Unsupported("__init__ reads self")
+        self.selfattrs = dict(self.selfattrs)
+        self.state = []
+        for py, _proj, ty in rd["fields"]:
+            p = "self_" + py.lstrip("_")
+            if p in self.genparams or p in self.all_names:
+                raise Unsupported(f"the name {p} is used by the function")
+            self.genparams[p] = ty
+            self.selfattrs[py] = (p, ty)
+            self.state.append(p)
+
+        def fin(e2, k, v=None):
+            if k == "end" or (k == "return" and v is None):
+                missing = [p for p in self.state if "@" + p not in e2]
+                if missing:
+                    raise Unsupported(f"__init__ can end without storing {', '.join(missing)}")
+                return wrap(f"({rd['mk']} {' '.join(self.state)})")
+            if k == "raise":
+                return raise_text(e2, v)
+            raise Unsupported(f"{k} in __init__")
+        self.ret_type = None
+        text = self.block(stmts, env, fin, 1)
+        rty = self.coq_type(rt)
+        full = f"res {rty if ' ' not in rty else '(' + rty + ')'}" if self.res else rty
+        return f"Definition {name} {' '.join(params)} : {full} :=\n{text}.\n"
+
+    def check_ctor_class(self, rd):
+        """as check_class_fields, for a class with base classes: the bases must be spelled exactly as the
+        spec's "bases" says (what they define is checked by the spec's "facts")"""
+        cd = self.classdef
+        if cd is None or cd.name != rd["cls"]:
+            raise Unsupported("record class not found")
+        declared = {f[0] for f in rd["fields"]} | set(self.spec.get("ignore_stores", {}))
+        for sub in ast.walk(cd):
+            if isinstance(sub, ast.Attribute) and isinstance(sub.ctx, (ast.Store, ast.Del)) and \
+                    isinstance(sub.value, ast.Name) and sub.value.id == "self" and sub.attr not in declared:
+                raise Unsupported(f"class {cd.name} stores self.{sub.attr}, which is not a declared field")
+        mutable = set(self.spec.get("mutable_fields", ())) | set(self.spec.get("ignore_stores", {}))
+        for n in cd.body:
+            # outside __init__, only the fields the spec declares mutable are ever stored again
+            if isinstance(n, (ast.FunctionDef, ast.AsyncFunctionDef)) and n.name != "__init__":
+                for sub in ast.walk(n):
+                    if isinstance(sub, ast.Attribute) and isinstance(sub.ctx, (ast.Store, ast.Del)) and \
+                            sub.attr in {f[0] for f in rd["fields"]} and sub.attr not in mutable:
+                        raise Unsupported(f"{cd.name}.{n.name} stores .{sub.attr}, not declared a mutable field")
+        for sub in ast.walk(cd):
+            # no attribute store that is not spelled `self.f = ..`
+            if (isinstance(sub, ast.Name) and sub.id in ("setattr", "delattr", "vars")) or \
+                    (isinstance(sub, ast.Attribute) and sub.attr in ("__dict__", "__setattr__", "__delattr__")):
+                raise Unsupported(f"class {cd.name} uses {ast.unparse(sub)[:30]}")
+        if [ast.unparse(b) for b in cd.bases] != list(self.spec.get("bases", [])) or cd.keywords:
+            raise Unsupported(f"the base classes of {cd.name} are not {self.spec.get('bases', [])}")
+        for d in cd.decorator_list:
+            raise Unsupported(f"class {cd.name} has decorators")
+        for n in cd.body:
+            if isinstance(n, ast.FunctionDef) and n.name in ("__setattr__", "__getattr__", "__getattribute__",
+                                                             "__new__", "__init_subclass__", "__del__"):
+                raise Unsupported(f"class {cd.name} defines {n.name}")
+            if isinstance(n, (ast.Assign, ast.AnnAssign)) and any(
+                    isinstance(t, ast.Name) and t.id == "__slots__"
+                    for t in (n.targets if isinstance(n, ast.Assign) else [n.target])):
+                raise Unsupported(f"class {cd.name} defines __slots__")
+
     def has_while(self, stmts):
         """is there a `while` outside the branches the spec declares untranslated?"""
         for s in stmts:
@@ -2418,6 +2643,131 @@ def find_function(tree, cls, func):
     raise Unsupported(f"function {cls + '.' if cls else ''}{func} " + ("not found" if not found else "defined twice"))
 
 
+def find_function_ov(tree, cls, func):
+    """(tsmall) as find_function, for a function that also has @overload stubs: the stubs must all come
+    before the one undecorated definition (the last `def` is the one Python keeps)"""
+    scope = tree.body
+    if cls:
+        cd = find_class(tree, cls)
+        if cd is None:
+            raise Unsupported(f"class {cls} not found (or defined twice)")
+        scope = cd.body
+    found = [n for n in scope if isinstance(n, ast.FunctionDef) and n.name == func]
+    if not found:
+        raise Unsupported(f"function {func} not found")
+    for n in found[:-1]:
+        if [ast.unparse(d) for d in n.decorator_list] != ["overload"] or \
+                not (len(n.body) == 1 and isinstance(n.body[0], ast.Expr) and isinstance(n.body[0].value, ast.Constant)
+                     and n.body[0].value.value is Ellipsis):
+            raise Unsupported(f"function {func} defined twice")
+    if found[-1].decorator_list:
+        raise Unsupported(f"the last definition of {func} is decorated")
+    return found[-1]
+
+
+def translate_const(tree, spec):
+    """(tsmall) kind "const": a module-level integer constant `NAME = <int expression>`, assigned exactly once in
+    the whole module.  The expression: int literals, unary minus, + - *, parentheses, names of constants
+    translated before (spec "consts": python name -> generated name) and the exact texts of spec "text_exprs"."""
+    cname_ = spec["const"]
+    stores = [n for n in ast.walk(tree) if isinstance(n, ast.Name) and n.id == cname_ and
+              isinstance(n.ctx, (ast.Store, ast.Del))]
+    tops = [n for n in tree.body if isinstance(n, (ast.Assign, ast.AnnAssign)) and
+            any(isinstance(t, ast.Name) and t.id == cname_
+                for t in (n.targets if isinstance(n, ast.Assign) else [n.target]))]
+    if len(stores) != 1 or len(tops) != 1 or getattr(tops[0], "value", None) is None or \
+            (isinstance(tops[0], ast.Assign) and len(tops[0].targets) != 1):
+        raise Unsupported(f"{cname_} is not assigned exactly once, at module level")
+    for n in ast.walk(tree):
+        if isinstance(n, (ast.Global, ast.Nonlocal)) and cname_ in n.names:
+            raise Unsupported(f"global {cname_}")
+        if isinstance(n, ast.ImportFrom) and any(al.name == "*" for al in n.names):
+            raise Unsupported("import *")
+        if isinstance(n, (ast.Import, ast.ImportFrom)) and any((al.asname or al.name).split(".")[0] == cname_
+                                                               for al in n.names):
+            raise Unsupported(f"{cname_} is also imported")
+        if isinstance(n, (ast.FunctionDef, ast.ClassDef)) and n.name == cname_:
+            raise Unsupported(f"{cname_} is also a function / class")
+
+    def ev(e):
+        t = ast.unparse(e)
+        if t in spec.get("text_exprs", {}):
+            return spec["text_exprs"][t][0]
+        if isinstance(e, ast.Constant) and isinstance(e.value, int) and not isinstance(e.value, bool):
+            return f"({e.value})" if e.value < 0 else str(e.value)
+        if isinstance(e, ast.UnaryOp) and isinstance(e.op, ast.USub):
+            return f"(- {ev(e.operand)})"
+        if isinstance(e, ast.BinOp) and type(e.op) in (ast.Add, ast.Sub, ast.Mult):
+            return f"({ev(e.left)} {({ast.Add: '+', ast.Sub: '-', ast.Mult: '*'})[type(e.op)]} {ev(e.right)})"
+        if isinstance(e, ast.Name) and e.id in spec.get("consts", {}):
+            return spec["consts"][e.id]
+        raise Unsupported(f"constant expression {t[:60]}")
+    return f"Definition {spec['name']} : Z :=\n  {ev(tops[0].value)}.\n"
+
+
+def check_facts(repo, trees, spec):
+    """(tsmall) spec "facts": structural facts about OTHER parts of the tree that the reading of this function
+    depends on; each is checked on the source text, and the translation fails closed when one does not hold.
+       ("lacks", file, cls, [names])       class cls of file defines none of these methods / class attributes
+       ("bases", file, cls, [texts])       the base classes of cls are spelled exactly so
+       ("sole_definer", [files], m, cls)   in these files, cls is the only class that defines m
+       ("module_has", file, text)          the module has exactly this top-level statement, and the name it
+                                           assigns is assigned nowhere else in the module"""
+    def tree_of(f):
+        path = repo / f
+        if path not in trees:
+            trees[path] = ast.parse(path.read_text())
+        return trees[path]
+
+    def defined(cd):
+        names = set()
+        for n in cd.body:
+            if isinstance(n, (ast.FunctionDef, ast.AsyncFunctionDef, ast.ClassDef)):
+                names.add(n.name)
+            elif isinstance(n, (ast.Assign, ast.AnnAssign, ast.AugAssign)):
+                for t in (n.targets if isinstance(n, ast.Assign) else [n.target]):
+                    names |= {x.id for x in ast.walk(t) if isinstance(x, ast.Name)}
+            elif not (isinstance(n, ast.Expr) and isinstance(n.value, ast.Constant)) and not isinstance(n, ast.Pass):
+                raise Unsupported(f"class {cd.name} has a body statement that is not a definition")
+        return names
+    for fact in spec.get("facts", []):
+        if fact[0] in ("lacks", "bases"):
+            _, f, cls, items = fact
+            cd = find_class(tree_of(f), cls)
+            if cd is None:
+                raise Unsupported(f"class {cls} not found (or defined twice) in {f}")
+            if fact[0] == "lacks":
+                both = defined(cd) & set(items)
+                if both:
+                    raise Unsupported(f"class {cls} defines {', '.join(sorted(both))}")
+            elif [ast.unparse(b) for b in cd.bases] != list(items) or cd.keywords or cd.decorator_list:
+                raise Unsupported(f"the base classes of {cls} are not {items}")
+        elif fact[0] == "sole_definer":
+            _, files, m, cls = fact
+            for f in files:
+                for cd in ast.walk(tree_of(f)):
+                    if isinstance(cd, ast.ClassDef) and cd.name != cls and m in defined(cd):
+                        raise Unsupported(f"class {cd.name} of {f} defines {m}")
+            if not any(isinstance(cd, ast.ClassDef) and cd.name == cls and m in defined(cd)
+                       for f in files for cd in tree_of(f).body):
+                raise Unsupported(f"class {cls} does not define {m}")
+        elif fact[0] == "module_has":
+            _, f, text = fact
+            tr = tree_of(f)
+            hits = [n for n in tr.body if ast.unparse(n) == text]
+            if len(hits) != 1 or not isinstance(hits[0], (ast.Assign, ast.AnnAssign)):
+                raise Unsupported(f"the module {f} does not say `{text}`")
+            tg = hits[0].targets[0] if isinstance(hits[0], ast.Assign) else hits[0].target
+            if not isinstance(tg, ast.Name) or sum(1 for n in ast.walk(tr) if isinstance(n, ast.Name) and n.id == tg.id
+                                                   and isinstance(n.ctx, (ast.Store, ast.Del))) != 1:
+                raise Unsupported(f"{ast.unparse(tg)} is assigned more than once in {f}")
+            for n in ast.walk(tr):
+                if isinstance(n, (ast.Global, ast.Nonlocal)) and tg.id in n.names:
+                    raise Unsupported(f"global {tg.id}")
+        else:
+            raise Unsupported(f"unknown fact {fact[0]}")
+
+
 HEADER = """(* GENERATED on every run by harness/translate/pysrc.py from the Python sources of the tree
    under test — do not edit.  Each definition is the translation of one function's source text;
    Proofs/GenEq*.v prove it equal to the hand-written model for all inputs. *)
@@ -2438,7 +2788,12 @@ def translate_all(repo: Path, specs, header=HEADER):
             path = repo / spec["file"]
             if path not in trees:
                 trees[path] = ast.parse(path.read_text())
-            fdef = find_function(trees[path], spec.get("cls"), spec["func"])
+            check_facts(repo, trees, spec)                                   # (tsmall)
+            if spec["kind"] == "const":                                      # (tsmall)
+                out.append(f"(* {spec['file']}: {spec['const']} *)\n" + translate_const(trees[path], spec))
+                continue
+            fdef = (find_function_ov if spec.get("overloads") else find_function)(
+                trees[path], spec.get("cls"), spec["func"])
             for line in spec.get("file_has", []):
                 # a module-level statement the spec's reading of a name depends on (e.g. an import)
                 if not any(ast.unparse(n) == line for n in trees[path].body):
@@ -2446,7 +2801,8 @@ def translate_all(repo: Path, specs, header=HEADER):
             tr = Tr(spec, known)
             tr.classdef = find_class(trees[path], spec["cls"]) if spec.get("cls") else None
             for d in fdef.decorator_list:
-                if ast.unparse(d) not in ("override", "property"):
+                if ast.unparse(d) not in ("override", "property") and \
+                        ast.unparse(d) not in spec.get("decorators_ok", ()):             # (tsmall)
                     raise Unsupported(f"decorator {ast.unparse(d)[:40]}")
             text = tr.function(fdef)
             # a definition that mentions a generated definition which could not be translated is not
@@ -2469,6 +2825,8 @@ def translate_all(repo: Path, specs, header=HEADER):
                                                                   ret=spec["ret"], mutates=True)
             if spec["kind"] == "init":
                 known[spec["cls"]] = (name, [t for _, t in spec["params"]], spec["record"])
+            if spec["kind"] == "ctor" and not spec.get("res") and all(tr.is_type(t) for _, t in spec["params"]):
+                known[spec["cls"]] = (name, [t for _, t in spec["params"]], spec["record"])     # (tsmall)
         except (Unsupported, SyntaxError, OSError, KeyError) as ex:
             errors[name] = f"{type(ex).__name__}: {ex}"
             out.append(f"(* {name}: NOT TRANSLATED — {str(ex).replace('*)', '* )')} *)\n")
